@@ -200,6 +200,37 @@ func checkC12(c *Ctx) {
 		}
 	}
 
+	// Unscoped() yields a NEW association handle: the handle it is called on keeps removing links only
+	// (methods of *Association that return *Association do not write through their receiver)
+	runs := c.Rule("C12.unscoped-copy", "methods deriving an *Association (Unscoped) do not write through their receiver", 1)
+	{
+		assocT := p.Named(pkgGorm, "Association")
+		eff := p.Effects()
+		n := 0
+		for i := 0; i < assocT.NumMethods(); i++ {
+			m := assocT.Method(i)
+			sig := m.Type().(*types.Signature)
+			if sig.Results().Len() != 1 || !p.isNamedPtr(sig.Results().At(0).Type(), assocT) {
+				continue
+			}
+			if _, ok := sig.Recv().Type().(*types.Pointer); !ok {
+				continue
+			}
+			n++
+			fn := p.SSAFunc(m)
+			c.TouchName("gorm.(*Association)." + m.Name())
+			ws, bad := eff.WritesThrough(fn, 0)
+			var wit []string
+			for _, w := range ws {
+				wit = append(wit, w.Path+" at "+p.Pos(w.Instr.Pos()))
+			}
+			runs.Check(!bad, "gorm.(*Association)."+m.Name(), "receiver read-only", fn.Pos(), "returns a fresh handle", "the method changes the association handle it is called on instead of deriving a new one: after assoc.Unscoped() every later Delete/Replace/Clear through the original handle deletes the associated records too", wit...)
+		}
+		if n == 0 {
+			runs.Bad("gorm.Association", "deriving methods", 0, "no method of *Association returns *Association any more; rule lost its anchor")
+		}
+	}
+
 	checkReturningCursor(c, c.Rule("C12.returning-cursor", "gorm.Scan advances the record cursor only under rows.Next()", 4))
 
 	r.Check(nRecord >= 3 && nLink >= 2 && nDetach >= 3, "gorm.Association", "census", assocT.Obj().Pos(), itoa(nRecord)+" record deletions, "+itoa(nLink)+" link deletions, "+itoa(nDetach)+" detaching updates", "association mode lost its record/link deletion sites; rule lost its anchors")
